@@ -356,6 +356,7 @@ def units():
 
 
 META = dict(
+    technique='z3 5.1 over verification conditions generated by a symbolic evaluator of the extracted IR (real arithmetic: machine floating point treated as mathematical); one time-boxed z3 counterexample search (slerp)',
     level="proof",
     level_text="The algebraic content of C06 is decided for all real inputs: each lemma (M*adj(M)=det*I, M*inverse(M)=I, rcp(A)*A=id, (A*B)(p)=A(B(p)), det multiplicative, transposed/rows, xfmPoint/xfmVector/xfmNormal = full map / linear part / inverse transpose, rotate(u,angle) proper rotation about u by that angle incl. sense, matrix-from-quaternion = quaternion rotation and orthonormal, quaternion-from-matrix in each of its four branches recovers +-q, yaw/pitch/roll = qY*qX*qZ, scale/translate/rotate-about-point/frame/lookat axes, origin, orthonormality, orientation) is a z3 proof over VCs generated by symbolic evaluation of the functions extracted from /repo on this run. A sign, index or operand slip turns a polynomial identity into a non-identity and is refuted with a model that is replayed on the real code.",
     level_note="ASSUMPTION: machine floating-point arithmetic treated as real arithmetic (rounding, the condition-number tolerance of the statement, overflow/NaN are not modelled). rcp/rsqrt (SSE estimate + Newton-Raphson) are modelled as exact 1/x and 1/sqrt(x); sin/cos as symbols with s^2+c^2=1. Trusted: clang AST, cxx2c, lib/mathvc.py symbolic evaluator, z3 5.1 (fallback z3 4.8 / cvc5).",
